@@ -138,7 +138,8 @@ CLAIMS = {
        "well-formedness of the emitted JSON / YAML / XML / SARIF text (serde_json, serde_yaml, quick-xml are outside the encoding), the "
        "SARIF result list, stdin handling, clap. Known discrepancy on this tree (recorded as the C09 known finding, not re-raised here): "
        "for a rule NAME defined several times the console summary table drops SKIP when another definition passed or failed, the "
-       "structured report lists the name under both. No Kani harness serves this property.",
+       "structured report lists the name under both. No Kani harness serves this property."
+       "Added later: the SARIF fold pushes exactly one result per message of a failing check ((0, 0) when the message has no location - never dropped); sarif-vs-json replay; the per-rules-file exit-code fold obligations of C06 also run here.",
   design="0b/C07"),
  "C08": dict(
   text="Panic-freedom (Kani's panic/overflow/bounds/unwrap checks) of every harnessed kernel for all inputs in its bound, in particular "
@@ -190,7 +191,8 @@ CLAIMS = {
        "longer / non-ASCII keys, indices >= 100, libyaml marks -> Location, that comparison results and the report builder keep "
        "the values' paths (operators.rs clones, eval_context.rs report builder), unresolved `traversed_to` / `remaining_query`. No Kani "
        "harness serves this property in the quick tier."
-       "Added later: Loader::handle_scalar_event attaches the scalar's own location (the C11 typing obligation, now also run here, with a YAML replay over every scalar style); clause reports / records keep the outcome's own values (see C09).",
+       "Added later: Loader::handle_scalar_event attaches the scalar's own location (the C11 typing obligation, now also run here, with a YAML replay over every scalar style); clause reports / records keep the outcome's own values (see C09)."
+       "Added later: system_mark_to_location copies libyaml's line / column unchanged and Parser::next returns the START mark of the event it converted.",
   design="0b/C10"),
  "C11": dict(
   text="Bounded symbolic execution (MIR; std parsers modelled as fallible calls; z3+cvc5) of the loader's scalar typing: "
@@ -221,7 +223,8 @@ CLAIMS = {
   note="This decides the wiring of the loops (which values reach root_scope / eval_rules_file), i.e. that no evaluation state object is "
        "shared between pairs; it does NOT decide that RootScope holds all mutable state, directory walking / ordering (-a / -m), "
        "the content of merged input parameters (wiring of the merge is under C17). No Kani harness serves this property."
-       "Added later: the process-wide-state enumeration of C05 (nothing outlives one evaluation's scope) with its isolation battery.",
+       "Added later: the process-wide-state enumeration of C05 (nothing outlives one evaluation's scope) with its isolation battery."
+       "Added later: the per-rules-file exit-code fold (`the run reports failure iff some pair does`) and the hash-order obligations of C05 also run here; per-<testsuite> replay for junit.",
   design="0b/C12"),
  "C13": dict(
   text="Bounded model checking of the comparison kernel: for ALL pairs of i64, ALL pairs of f64 (NaN => not comparable, -0.0 == 0.0), "
@@ -292,7 +295,8 @@ CLAIMS = {
        "serde_yaml / serde_json loaders that feed `test` (Int only with the exact i64 value - see C11) and their agreement with the validate loader on short-form tags.",
   note="NOT covered: that `test` and `validate` compute the same statuses (two loaders + the evaluator), `--dir` mode, the rendering of "
        "the four output formats."
-       "Added later: every rule recorded by the structured test reporter is an entry of get_by_rules' OWN result (a loop over a re-keyed or filtered copy refutes the obligation); rule names differing only in letter case are in the native replay. This obligation had been vacuous for a while (see DESIGN 0.4) - a generic zero-count guard now makes such an obligation inconclusive.",
+       "Added later: every rule recorded by the structured test reporter is an entry of get_by_rules' OWN result (a loop over a re-keyed or filtered copy refutes the obligation); rule names differing only in letter case are in the native replay. This obligation had been vacuous for a while (see DESIGN 0.4) - a generic zero-count guard now makes such an obligation inconclusive."
+       "Added later: build_test_suite's failure counter grows by number_of_failures() = len(failed_rules) per test case (renderings-agree replay: json / junit failure counts for 0..3 unmet expectations per case).",
   design="4/C16"),
  "C17": dict(
   text="PathAwareValue::merge decided twice: by Kani/CBMC on one-entry maps with symbolic integer values (equal keys: MultipleValues "
@@ -305,7 +309,8 @@ CLAIMS = {
        "document) in both the plain and the --structured path, and one step of the -i fold merges the next file into the accumulated "
        "parameters (an error stops the run).",
   note="NOT covered: reading the -i files, that `keys` and `values` stay aligned for `keys` "
-       "filters beyond the per-entry push, list merging semantics (extend), equality of verdicts with the pre-merged document.",
+       "filters beyond the per-entry push, list merging semantics (extend), equality of verdicts with the pre-merged document."
+       "Added later: has_a_supported_extension is exactly `some extension is a suffix of the name` (callers hand it absolute paths for --data and base names for -i); replay over unusual parameter file names.",
   design="0b/C17"),
  "C18": dict(
   text="Bounded model checking of the small built-ins: substring on strings of 0..3 bytes (thorough: 4) built from symbolic 1/2/3-byte "
@@ -323,7 +328,8 @@ CLAIMS = {
        "(Unicode case tables reachable through heap-held kinds), url_decode, regex_replace, json_parse, parse_epoch, now, string "
        "parsing (`parse::<i64>` on symbolic bytes), dispatch/arity in the parser, results bound to variables."
        "Added later: resolve_function and its per-argument closure - a literal argument becomes [Literal(v)], a query argument is evaluated in the scope given, a nested call recursively; the function named is called on exactly the folded list; its present results are wrapped as Resolved values in order."
-       "Added later: Kani k16_parse_int_float - parse_int on every finite float below 2^53 truncates toward zero.",
+       "Added later: Kani k16_parse_int_float - parse_int on every finite float below 2^53 truncates toward zero."
+       "Added later: the parser accepts a built-in call only with the declared number of arguments (function_expr), the precondition of the argument-index obligations of C08.",
   design="4/C18"),
  "C19": dict(
   text="The part of rulegen that engine B can read (MIR; serde / HashMap / formatting calls modelled; z3+cvc5): print_rules hands the text it "
@@ -339,7 +345,8 @@ CLAIMS = {
        "resources of one type have different property sets - exhibited by an abstract two-Boolean obligation over the code facts above plus "
        "C01's 'unresolved = FAIL' (this one obligation is about a model of the round trip, not about one function's MIR) and replayed by "
        "rulegen + validate. Also not decided: what serde's to_string prints for a value, the quoting / newline stripping, serde's reading of the template, the name "
-       "mangling (`::` -> `_`, lower case) beyond the call sequence. No Kani harness serves this property.",
+       "mangling (`::` -> `_`, lower case) beyond the call sequence. No Kani harness serves this property."
+       "Added later: the template is read exactly once, by serde_yaml::from_str (a second, differently rounding reader tried first refutes it); long-float template in the replay; KF3 (rule names not injective).",
   design="0b/C19"),
 }
 
